@@ -26,6 +26,12 @@ def build(pytrs, r, kind, n):
         else:
             pool.append(pytrs.TRS(trs))
     elems = [r.choice(pool) for _ in range(n)]
+    if kind == 'tract' and r.random() < 0.3:
+        # tracts of one section whose DIFFERENT aliquot lists run together to the same string ('NENE'+'SWSWSW' = 'NENESW'+'SWSW'), plus a true duplicate
+        trs0 = r.choice(TRSS)
+        extra = [pytrs.Tract(d_, trs=trs0, parse_qq=True) for d_ in ('NE/4NE/4, SW/4SW/4SW/4', 'NE/4NE/4SW/4, SW/4SW/4', 'SW/4SW/4SW/4, NE/4NE/4')]
+        elems = elems[:max(0, n - 3)] + extra
+        r.shuffle(elems)
     cls = pytrs.TractList if kind == 'tract' else pytrs.TRSList
     return cls(elems), elems
 
